@@ -501,6 +501,8 @@ def oracle_C08(inp):
 def oracle_C09(inp):
     from spil import FindInList
     from spil.sid.read.tools import unfold_search
+    if inp.get("tree"):
+        return _oracle_C09_tree(inp)
     L, s, index = inp["l"], inp["s"], inp["index"]
     if any("[" in x for x in L) or "[" in s:
         return []
@@ -533,6 +535,47 @@ def oracle_C09(inp):
         out.append("find(%r) yields duplicates" % s)
     if set(got) != expected:
         out.append("find(%r) over %r: expected %r, got %r" % (s, L, sorted(expected), sorted(got)))
+    return out
+
+
+def _oracle_C09_tree(inp):
+    """'the answer does not depend on which Finder serves it': the universe built as a tree, the
+    greatest entry of each group computed from the list of existing Sids"""
+    from spil import FindInList, FindInPaths, FindInAll
+    out = []
+    leaves, s, index = inp["leaves"], inp["s"], inp["index"]
+    wipe()
+    build(leaves, None)
+    G = [g for g in closure(leaves) if Sid(g).path() is not None]
+    try:
+        us = unfolded(s)
+    except SpilException:
+        return []
+    if not us or any((str(u).split("/") + [""] * (index + 1))[index] != ">" or str(u).count(">") != 1 for u in us):
+        return []
+    if not all(has_path_type(u.type) for u in us):
+        return []
+    types = {u.type for u in us}
+    matching = [e for e in G if Sid(e).type in types and any(seg_glob(str(u).replace(">", "*"), e) for u in us)]
+    groups = {}
+    for e in matching:
+        segs = e.split("/")
+        groups.setdefault(tuple(segs[:index]), []).append(segs)
+    expected = {"/".join(max(g)) for g in groups.values()}
+    finders = [("FindInList", lambda: FindInList([e for e in G if Sid(e).type in types])), ("FindInPaths", FindInPaths)]
+    if all(uses_paths_finder(u) for u in us):
+        finders.append(("FindInAll", FindInAll))
+    for name, mk in finders:
+        try:
+            got = list(mk().find(s, as_sid=False))
+            one = mk().find_one(s, as_sid=False)
+        except BaseException as e:  # noqa
+            out.append("%s.find(%r) raised %s: %s" % (name, s, type(e).__name__, e))
+            continue
+        if set(got) != expected or len(got) != len(set(got)):
+            out.append("%s.find(%r) over the tree of %r: expected %r, got %r" % (name, s, leaves, sorted(expected), sorted(got)))
+        if (one is None) != (not expected) or (one is not None and one not in expected):
+            out.append("%s.find_one(%r) = %r, expected one of %r" % (name, s, one, sorted(expected)))
     return out
 
 
